@@ -149,13 +149,20 @@ func (sr *StyleResolver) buildInheritanceChain(styleID string) []string {
 	current := styleID
 	for current != "" && !visited[current] {
 		visited[current] = true
-		chain = append([]string{current}, chain...) // Prepend
+		chain = append(chain, current) // derived first; reversed below
 
 		if def, ok := sr.styles[current]; ok {
 			current = def.BasedOn.Val
 		} else {
 			break
 		}
+	}
+
+	// Base first. (Prepending each ancestor instead copied the chain once per
+	// ancestor: resolving the styles of a long basedOn chain was quadratic per
+	// style and allocated gigabytes for a chain of a few thousand styles.)
+	for i, j := 0, len(chain)-1; i < j; i, j = i+1, j-1 {
+		chain[i], chain[j] = chain[j], chain[i]
 	}
 
 	return chain
